@@ -9,12 +9,15 @@ import (
 func sanitizeSelectionSet(ctx *PlanningContext, selectionSet ast.SelectionSet, insertionPoint []string) (ast.SelectionSet, ScrubFields) {
 	scrubFields := make(ScrubFields)
 	var result ast.SelectionSet
+	// helper fields which client selected by himself below the fields of this level, by the path of the field
+	selectedHelpers := make(map[string][]selectedHelper)
 	for _, s := range selectionSet {
 		switch s := s.(type) {
 		case *ast.Field:
 			if len(s.SelectionSet) != 0 {
 				// read before the fragments are rewritten and get helper fields of their own
-				selectedHelpers := clientSelectedHelpers(ctx, s.SelectionSet, nil)
+				path := scrubFields.hash(append(insertionPoint, s.Alias))
+				selectedHelpers[path] = append(selectedHelpers[path], clientSelectedHelpers(ctx, s.SelectionSet, nil)...)
 
 				childSelectionSet, sf := sanitizeSelectionSet(ctx, s.SelectionSet, append(insertionPoint, s.Alias))
 				scrubFields.Merge(sf)
@@ -22,12 +25,6 @@ func sanitizeSelectionSet(ctx *PlanningContext, selectionSet ast.SelectionSet, i
 				var addedFields []string
 				childSelectionSet, addedFields = addScrubFieldsToSelectionSet(ctx, childSelectionSet, s.Definition.Type.Name(), false)
 				scrubFields = setMissingScrubFieldsForFieldSelectionSet(ctx, insertionPoint, s, childSelectionSet, scrubFields, addedFields)
-
-				// helper fields which client selected by himself through a fragment should not be scrubbed
-				// for the objects this fragment applies to, even if another fragment added them too
-				for _, h := range selectedHelpers {
-					scrubFields.UnsetForType(append(append([]string{}, insertionPoint...), s.Alias), h.typename, h.fieldname)
-				}
 
 				s.SelectionSet = childSelectionSet
 			}
@@ -91,6 +88,18 @@ func sanitizeSelectionSet(ctx *PlanningContext, selectionSet ast.SelectionSet, i
 		}
 	}
 
+	// nor should the ones he selected below a field, by himself or through a fragment (then for the objects this fragment
+	// applies to), even if another fragment or another selection of the same response key added them too
+	for path, helpers := range selectedHelpers {
+		for _, h := range helpers {
+			if h.typename == "" {
+				scrubFields.Unset(scrubFields.unhash(path), h.fieldname)
+			} else {
+				scrubFields.UnsetForType(scrubFields.unhash(path), h.typename, h.fieldname)
+			}
+		}
+	}
+
 	return result, scrubFields
 }
 
@@ -99,16 +108,19 @@ type selectedHelper struct {
 	fieldname string
 }
 
-// clientSelectedHelpers lists helper fields which client selected by himself inside the fragments of the selection set
-// (without alias or directives), each with the types of the objects it is selected for. nil types stands for every type
+// clientSelectedHelpers lists helper fields which client selected by himself in the selection set and inside its fragments
+// (without alias or directives), each with the types of the objects it is selected for.
+// nil types and empty typename stand for every type
 func clientSelectedHelpers(ctx *PlanningContext, selectionSet ast.SelectionSet, types []string) []selectedHelper {
 	var res []selectedHelper
 	for _, s := range selectionSet {
 		switch s := s.(type) {
 		case *ast.Field:
-			// selected on the level itself is already handled by sanitizeSelectionSet
 			if s.Alias != s.Name || len(s.Directives) != 0 || (s.Name != common.IDFieldName && s.Name != common.TypenameFieldName) {
 				continue
+			}
+			if types == nil {
+				res = append(res, selectedHelper{fieldname: s.Name})
 			}
 			for _, t := range types {
 				res = append(res, selectedHelper{typename: t, fieldname: s.Name})
@@ -300,17 +312,24 @@ func addScrubFieldsToSelectionSet(ctx *PlanningContext, selectionSet ast.Selecti
 }
 
 func addSelectionSetToSanitizedResult(s ast.SelectionSet, ss ...ast.Selection) ast.SelectionSet {
-	ss = lo.Filter(ss, func(sel ast.Selection, i int) bool {
+	for _, sel := range ss {
 		f, ok := sel.(*ast.Field)
 		if !ok {
-			return true
+			s = append(s, sel)
+			continue
 		}
-		// the same response key is already there
-		return !lo.ContainsBy(s, func(existing ast.Selection) bool {
+		existing, found := lo.Find(s, func(existing ast.Selection) bool {
 			ef, ok := existing.(*ast.Field)
 			return ok && ef.Alias == f.Alias
 		})
-
-	})
-	return append(s, ss...)
+		if !found {
+			s = append(s, sel)
+			continue
+		}
+		// the same response key is already there, what is selected below it is selected below that one
+		if ef := existing.(*ast.Field); len(f.SelectionSet) > 0 {
+			ef.SelectionSet = addSelectionSetToSanitizedResult(ef.SelectionSet, f.SelectionSet...)
+		}
+	}
+	return s
 }
